@@ -595,12 +595,10 @@ class Run:
             # 3. second flush: the split copies are two files (ordered + out of order)
             node.srv.flush()
             node.ctrl(mod="chunk_reader_parallel", limit="4")
-            node.ctrl(mod="binary_tree_merge", enabled="1")
-            self.round(node, f"{name}/two files,chunk_reader_parallel=4,binary_tree_merge=1", ["n"] if not full else ["m", "n"],
+            self.round(node, f"{name}/two files,chunk_reader_parallel=4", ["n"] if not full else ["m", "n"],
                        self.variants(full, "r3"))
             if full:
                 node.ctrl(mod="chunk_reader_parallel", limit="0")
-                node.ctrl(mod="binary_tree_merge", enabled="0")
                 self.round(node, f"{name}/two files,chunk_reader_parallel=0", ["n"], self.variants(False, "r4"))
         finally:
             node.stop()
